@@ -68,9 +68,7 @@ func (fr *Frame) escapeLV(v ssa.Value, lv *LV) T {
 		ex.decls = append(ex.decls, fmt.Sprintf("(declare-fun %s (%s) Ref)", fn, sig))
 	}
 	t := app("Ref", fn, lv.idx...)
-	if _, seen := ex.escaped[t.s]; !seen {
-		ex.decls = append(ex.decls, fmt.Sprintf("(assert (not (= %s nil)))", t.s))
-	}
+	ex.emit(fmt.Sprintf("(assert (not (= %s nil)))", t.s))
 	ex.escaped[t.s] = lv
 	return t
 }
